@@ -41,24 +41,6 @@ func TestReplay_ClosuresSharingCode(t *testing.T) {
 	}
 }
 
-// reflection.Analyzer.Analyze#post[instance_value_is_the_given_one]: two instance values of one Go type.
-func TestReplay_InstanceValuesOfOneType(t *testing.T) {
-	a, b := &rbLogger{id: 1}, &rbLogger{id: 2}
-	an := reflectionAnalyzerOf(t)
-	ia, err := an.Analyze(a)
-	if err != nil {
-		t.Fatal(err)
-	}
-	ib, err := an.Analyze(b)
-	if err != nil {
-		t.Fatal(err)
-	}
-	_ = ia
-	if ib.InstanceValue != any(b) {
-		t.Errorf("REPLAY-CONFIRMED Analyzer.Analyze#post[instance_value_is_the_given_one]: analysing instance #2 returned the info of instance #%d", ib.InstanceValue.(*rbLogger).id)
-	}
-}
-
 type rbStructErr struct{ msg string }
 
 func (e rbStructErr) Error() string { return e.msg }
@@ -243,5 +225,83 @@ func TestReplay_RejectedMultiOutputRegistrationIsAtomic(t *testing.T) {
 	}
 	if c.Count() != before || c.Contains(reflect.TypeOf((*rbMultiA)(nil))) {
 		t.Errorf("REPLAY-CONFIRMED addService#post[rejected_registration_leaves_the_collection_unchanged]: rejected registration left %d descriptor(s) behind (Contains(*rbMultiA)=%v)", c.Count()-before, c.Contains(reflect.TypeOf((*rbMultiA)(nil))))
+	}
+}
+
+type rbMissing struct{ n int }
+type rbNeedsMissing struct{ m *rbMissing }
+type rbOptIn struct {
+	In
+	M *rbMissing `optional:"true"`
+}
+
+// godi.collection.doBuild#post[accepted_means_every_required_dependency_is_registered]: a scoped / transient service whose
+// required dependency is not registered (singletons fail only as a side effect of eager construction).
+func TestReplay_MissingDependencyAcceptedByBuild(t *testing.T) {
+	for _, lt := range []Lifetime{Scoped, Transient, Singleton} {
+		c := NewCollection()
+		ctor := func(m *rbMissing) *rbNeedsMissing { return &rbNeedsMissing{m: m} }
+		var err error
+		switch lt {
+		case Scoped:
+			err = c.AddScoped(ctor)
+		case Transient:
+			err = c.AddTransient(ctor)
+		default:
+			err = c.AddSingleton(ctor)
+		}
+		if err != nil {
+			t.Fatal(err)
+		}
+		p, err := c.Build()
+		if err == nil {
+			sc, _ := p.CreateScope(context.Background())
+			_, rerr := Resolve[*rbNeedsMissing](sc)
+			t.Errorf("REPLAY-CONFIRMED collection.doBuild#post[accepted_means_every_required_dependency_is_registered]: Build accepted a %v service whose required dependency *rbMissing is not registered; resolving it fails with: %v", lt, rerr)
+			p.Close()
+		}
+	}
+	// acceptance direction: an optional missing dependency and an empty group do not make Build fail
+	c := NewCollection()
+	if err := c.AddScoped(func(in rbOptIn) *rbNeedsMissing { return &rbNeedsMissing{m: in.M} }); err != nil {
+		t.Fatal(err)
+	}
+	if p, err := c.Build(); err != nil {
+		t.Errorf("REPLAY-CONFIRMED collection.doBuild#post[missing_optional_dependency_is_accepted]: Build rejected a set whose only missing dependency is optional: %v", err)
+	} else {
+		p.Close()
+	}
+}
+
+// godi.collection.doBuild#post[root_initializers_run_after_singletons]: a scope initializer function (scoped, returns nothing)
+// that takes a singleton must not make Build fail.
+func TestReplay_InitializerDependingOnSingleton(t *testing.T) {
+	c := NewCollection()
+	if err := c.AddSingleton(func() *rbLogger { return &rbLogger{id: 7} }); err != nil {
+		t.Fatal(err)
+	}
+	ran := 0
+	if err := c.AddScoped(func(l *rbLogger) {
+		if l != nil && l.id == 7 {
+			ran++
+		}
+	}); err != nil {
+		t.Fatal(err)
+	}
+	p, err := c.Build()
+	if err != nil {
+		t.Fatalf("REPLAY-CONFIRMED collection.doBuild#post[root_initializers_run_after_singletons]: Build fails although every dependency is registered, acyclic and lifetime-correct: %v", err)
+	}
+	defer p.Close()
+	if ran != 1 {
+		t.Errorf("REPLAY-CONFIRMED collection.doBuild#post[root_initializers_run_after_singletons]: initializer ran %d times for the root scope, want 1", ran)
+	}
+	sc, err := p.CreateScope(context.Background())
+	if err != nil {
+		t.Fatal(err)
+	}
+	defer sc.Close()
+	if ran != 2 {
+		t.Errorf("REPLAY-CONFIRMED newScope#post[initializers_once_in_order]: initializer ran %d times after one more scope, want 2", ran)
 	}
 }
